@@ -14,6 +14,7 @@ import (
 	"errors"
 	"fmt"
 	"os"
+	"os/exec"
 	"path/filepath"
 	"sort"
 	"strconv"
@@ -282,6 +283,84 @@ func replay(path string) int {
 	return 0
 }
 
+// selftestDeterminism runs the digest in many fresh processes: several seeds, each at least
+// four times across GOMAXPROCS 1/4/16 and worker counts 1/16, and diffs the outputs.
+func selftestDeterminism() int {
+	seeds := 8
+	if s := os.Getenv("VERIF_DET_SEEDS"); s != "" {
+		seeds, _ = strconv.Atoi(s)
+	}
+	type cfg struct{ gmp, workers string }
+	cfgs := []cfg{{"16", "16"}, {"1", "16"}, {"4", "1"}, {"16", "4"}, {"4", "16"}}
+	self, _ := os.Executable()
+	bad := 0
+	runs := 0
+	type job struct {
+		seed int
+		c    cfg
+		out  string
+		err  error
+	}
+	jobs := []*job{}
+	for s := 1; s <= seeds; s++ {
+		for _, c := range cfgs {
+			jobs = append(jobs, &job{seed: s, c: c})
+		}
+	}
+	sem := make(chan struct{}, 4)
+	done := make(chan *job)
+	for _, j := range jobs {
+		go func(j *job) {
+			sem <- struct{}{}
+			defer func() { <-sem; done <- j }()
+			cmd := exec.Command(self, "selftest", "determinism-child")
+			cmd.Env = append(os.Environ(), fmt.Sprintf("VERIF_SEED=%d", j.seed), "GOMAXPROCS="+j.c.gmp, "VERIF_WORKERS="+j.c.workers)
+			b, err := cmd.Output()
+			j.out, j.err = string(b), err
+		}(j)
+	}
+	for range jobs {
+		<-done
+	}
+	for s := 1; s <= seeds; s++ {
+		var ref *job
+		for _, j := range jobs {
+			if j.seed != s {
+				continue
+			}
+			runs++
+			if j.err != nil {
+				fmt.Printf("seed %d GOMAXPROCS=%s workers=%s: child failed: %v\n", s, j.c.gmp, j.c.workers, j.err)
+				bad++
+				continue
+			}
+			if ref == nil {
+				ref = j
+				continue
+			}
+			if j.out != ref.out {
+				bad++
+				a, b := strings.Split(ref.out, "\n"), strings.Split(j.out, "\n")
+				for i := 0; i < len(a) && i < len(b); i++ {
+					if a[i] != b[i] {
+						fmt.Printf("seed %d: GOMAXPROCS=%s/workers=%s vs GOMAXPROCS=%s/workers=%s differ at line %d:\n  %s\n  %s\n", s, ref.c.gmp, ref.c.workers, j.c.gmp, j.c.workers, i, a[i], b[i])
+						break
+					}
+				}
+			}
+		}
+		if ref != nil {
+			fmt.Printf("seed %d: %d digest lines, %d configurations\n", s, len(strings.Split(ref.out, "\n")), len(cfgs))
+		}
+	}
+	if bad > 0 {
+		fmt.Printf("DETERMINISM FAILED: %d of %d runs differ\n", bad, runs)
+		return 2
+	}
+	fmt.Printf("determinism ok: %d seeds x %d fresh processes (GOMAXPROCS 1/4/16, workers 1/4/16), all digests identical\n", seeds, len(cfgs))
+	return 0
+}
+
 func selftest(what string) int {
 	switch what {
 	case "seam":
@@ -297,8 +376,39 @@ func selftest(what string) int {
 		}
 		fmt.Printf("seam ok: %d sites, %d map-range sites, warnings=%v, node invocations=%d\n", len(n.Sites), n.MapRanges, n.Warnings, c.Runner.Invocations.Load())
 		return 0
+	case "determinism-child":
+		// prints the digest of a seed-derived batch; run by "selftest determinism" in fresh
+		// processes under several GOMAXPROCS / worker counts
+		workers, _ := strconv.Atoi(os.Getenv("VERIF_WORKERS"))
+		if workers == 0 {
+			workers = 16
+		}
+		n, err := node.Build(repoDir())
+		if err != nil {
+			infra(err)
+		}
+		defer n.Close()
+		c := gensim.NewCtx(n, seed(), "selftest", verifDir())
+		c.Workers = workers
+		lines, err := gensim.Digest(c, 24)
+		if err != nil {
+			n.Close()
+			infra(err)
+		}
+		for _, l := range lines {
+			fmt.Println(l)
+		}
+		cl, err := convsim.Digest(seed(), repoDir())
+		if err != nil {
+			n.Close()
+			infra(err)
+		}
+		for _, l := range cl {
+			fmt.Println(l)
+		}
+		return 0
 	case "determinism":
-		return gensim.SelftestDeterminism(repoDir(), verifDir(), seed())
+		return selftestDeterminism()
 	}
 	infra(fmt.Errorf("unknown selftest %q", what))
 	return 2
